@@ -48,9 +48,50 @@ fn hash(a: &[&str]) -> String {
     }
 }
 
+/// `argon2.build`: the builder calls of `prog` applied in order (see Driver/Argon2.lean)
+fn build(a: &[&str]) -> String {
+    let mut params = match a[0] {
+        "d" => Params::argon2d(),
+        "i" => Params::argon2i(),
+        "id" => Params::argon2id(),
+        _ => panic!("bad type"),
+    };
+    if a[1] != "-" {
+        for call in a[1].split(',') {
+            if call.is_empty() || !call.is_ascii() {
+                return "bad-args".to_string();
+            }
+            let (c, n) = call.split_at(1);
+            let n = nat(n);
+            assert!(n < (1u64 << 32), "bad u32");
+            let n = n as u32;
+            let r = match c {
+                "m" => params.memory_kb(n),
+                "p" => params.parallelism(n),
+                "t" => params.iterations(n),
+                "v" => params.version(n),
+                _ => return "bad-args".to_string(),
+            };
+            params = match r {
+                Ok(s) => s,
+                Err(e) => return format!("ERR:{:?}", e),
+            };
+        }
+    }
+    let tl = us(a[2]);
+    let (pwd, salt, key, aad) = (unhex(a[3]), unhex(a[4]), unhex(a[5]), unhex(a[6]));
+    let mut tag = vec![0xa5u8; tl];
+    argon2::argon2_at(&params, &pwd, &salt, &key, &aad, &mut tag);
+    match fixed(&params, tl, &pwd, &salt, &key, &aad) {
+        Some(t2) => format!("{},{}", hex(&tag), hex(&t2)),
+        None => hex(&tag),
+    }
+}
+
 pub fn run(op: &str, a: &[&str]) -> Option<String> {
     match op {
         "argon2.hash" if a.len() == 10 => Some(hash(a)),
+        "argon2.build" if a.len() == 7 => Some(build(a)),
         _ => None,
     }
 }
